@@ -11,7 +11,15 @@ for n in names:
         continue
     pid = json.load(open(os.path.join(d, "meta.json")))["property"]
     assert subprocess.run(["git", "-C", "/repo", "status", "--porcelain"], capture_output=True, text=True).stdout.strip() == "", "/repo dirty"
-    subprocess.run(["git", "-C", "/repo", "apply", os.path.join(d, "patch.diff")], check=True)
+    ap = subprocess.run(["git", "-C", "/repo", "apply", os.path.join(d, "patch.diff")], capture_output=True, text=True)
+    if ap.returncode != 0:
+        # the patch was cut against an earlier /repo HEAD (before later fix: commits): merge it
+        ap = subprocess.run(["git", "-C", "/repo", "apply", "--3way", os.path.join(d, "patch.diff")], capture_output=True, text=True)
+        if ap.returncode != 0:
+            subprocess.run(["git", "-C", "/repo", "reset", "-q", "--hard", "HEAD"], check=True)
+            print("%-12s %s does not apply to the current /repo HEAD: %s" % (n, pid, ap.stderr.strip()[:200]))
+            continue
+        subprocess.run(["git", "-C", "/repo", "reset", "-q"], check=True)   # keep the change in the working tree only
     try:
         env = dict(os.environ, VERIF_EVIDENCE_DIR=os.path.join(V, ".build", "seeded-evidence"))
         p = subprocess.run([os.path.join(V, "check"), pid, "quick"], cwd=V, capture_output=True, text=True, env=env)
